@@ -437,8 +437,8 @@ def run(ctx):
     engine.install(need_parser=True)
     ctx.prove("C14")
     duckdb_writer_rule(ctx)
-    n_gen = 30 if ctx.tier == "quick" else 600
-    n_suite = 20 if ctx.tier == "quick" else 250
+    n_gen = 22 if ctx.tier == "quick" else 600
+    n_suite = 10 if ctx.tier == "quick" else 250
     tmp = Path(tempfile.mkdtemp(prefix="c14_"))
     hist: Dict[str, int] = {}
     t_engine = 0.0
@@ -474,6 +474,8 @@ def run(ctx):
                 t_engine += time.time() - t0
                 if "skip" in rec:
                     skipped += 1
+                    if skipped <= 3:
+                        ctx.log("generated case fails in memory:", rec["skip"], "| script:", case["script"][:120].replace("\n", " "))
                     continue
                 recs.append((case, rec))
             if i < 3:
@@ -481,6 +483,8 @@ def run(ctx):
             flush()
         ctx.cov["generated_cases"] = n_gen
         ctx.cov["generated_skipped_engine_error"] = skipped
+        ctx.oblige("generator: at most 20% of the generated cases fail on the plain in-memory run", skipped <= 0.2 * 2 * n_gen,
+                   f"{skipped} of {2 * n_gen} runs raised")
         # 3. test-suite scripts with data
         sc = suite_cases(ctx, n_suite)
         n_ok = n_skip = 0
